@@ -70,7 +70,10 @@ def canon_cond(c):
     if h == "imply":
         return [h] + [canon_cond(x) for x in c[1:]]
     if h in pddl.CMP_OPS and not (h == "=" and len(c) == 3 and isinstance(c[1], str) and not pddl.is_number(c[1])):
-        return [h] + [nexpr(x) for x in c[1:]]
+        ops = [nexpr(x) for x in c[1:]]
+        if h == "=":     # numeric equality is symmetric
+            ops = sorted(ops, key=lambda y: json.dumps(y))
+        return [h] + ops
     if h == "=" and len(c) == 3:
         return ["="] + sorted(c[1:], key=str)
     return c
@@ -154,11 +157,14 @@ def behaviour_differs(world, params, src_pre, src_eff, x_pre, x_eff, probes, act
         if not pddl.states_equal(s1, s2):
             return "eff"
         decided += 1
-    return None
+    # no probe had a defined reference outcome for the source: equivalence cannot be concluded
+    return None if decided else "undecided"
 
 
-def compare_action(world, a, lib_action, probes):
-    """-> list of (part, detail) where the read-back is unfaithful."""
+def compare_action(world, a, lib_action, probes, strict=False):
+    """-> list of (part, detail) where the read-back is unfaithful.  When the structures differ and no
+    probe has a defined reference outcome the result is ('UNDECIDED', None) - unless strict (outside
+    forms), where an unverifiable read-back counts as unfaithful."""
     out = []
     ok, xa = lib_call(extract.x_action, lib_action)
     if not ok:
@@ -172,7 +178,9 @@ def compare_action(world, a, lib_action, probes):
     if same_pre and same_eff:
         return out
     why = behaviour_differs(world, a["params"], src_pre, a["eff"], x_pre, x_eff, probes, a["name"])
-    if why == "undecidable":
+    if why == "undecided" and not strict:
+        return out + [("UNDECIDED", None)]
+    if why in ("undecidable", "undecided"):
         if not same_pre:
             out.append(("pre", {"source": src_pre, "read_back": x_pre}))
         if not same_eff:
@@ -324,8 +332,11 @@ def check_case(case):
         if la is None:
             unfaithful.append((a, "signature", {"missing action": a["name"]}))
             continue
-        for part, detail in compare_action(world, a, la, probes):
-            unfaithful.append((a, part, detail))
+        for part, detail in compare_action(world, a, la, probes, strict=bool(tag)):
+            if part == "UNDECIDED":
+                res.skips.append("equivalence-undecided")
+            else:
+                unfaithful.append((a, part, detail))
     if not unfaithful:
         if tag:
             res.classes.append("outside-faithful")
